@@ -49,6 +49,14 @@ OPEN += [
      "in one trial (a swap) works and is exercised by the other checks"),
 ]
 
+OPEN += [
+    ("KF-C02-1", "C02", "C02|particle_counter_wrong_after_label_merge|driver=GrandCanonical|table=composite_exchange",
+     "consequence of KF-C05-1: after one composite exchange call inserted several particles under one label, deleting that "
+     "label removes all of them while number_of_exchange_particles drops by one; every later insertion/deletion decision "
+     "uses the wrong N in V/(Lambda^3 (N+1)) resp. Lambda^3 N/V (moves/exchange.py CompositeExchangeMove.__call__: "
+     "particle_delta -= len(np.unique(deleted_labels))). Visible only on marginal decisions; the check pins one such history"),
+]
+
 # (property, repo commit, what failed, signatures the check printed on the pre-fix tree)
 FIXED = [
     ("C06", "7361bba", "Driver(seed=0) replaced the seed by a random one: two runs with seed=0 diverged",
